@@ -422,3 +422,36 @@ def zone_fields_ok(tzh, tzm):
     mm = 0 if tzm is None else tzm
     return (-99 <= hh and hh <= 99 and -59 <= mm and mm <= 59
             and (hh <= 0 or mm >= 0) and (hh >= 0 or mm <= 0))
+
+
+def same_zone(r, p):
+    return (r._time_zone._hours == p._time_zone._hours
+            and r._time_zone._minutes == p._time_zone._minutes)
+
+
+def isod(p):
+    """Integer second of day of a whole-second point (fields need not be normal)."""
+    t = 3600 * int(p._hour_of_day)
+    if p._minute_of_hour is not None:
+        t = t + 60 * int(p._minute_of_hour)
+    if p._second_of_minute is not None:
+        t = t + int(p._second_of_minute)
+    return t
+
+
+def hms_from_sod(p):
+    """For a normal whole-second point the time fields are functions of isod."""
+    t = isod(p)
+    if p._minute_of_hour is None:
+        return p._hour_of_day == t // 3600
+    if p._second_of_minute is None:
+        return p._hour_of_day == t // 3600 and p._minute_of_hour == (t // 60) % 60
+    return (p._second_of_minute == t % 60 and p._minute_of_hour == (t // 60) % 60
+            and p._hour_of_day == t // 3600)
+
+
+def dwhole(d):
+    """Every exact component of the Duration is integral."""
+    if d._weeks is not None:
+        return True
+    return isint(d._hours) and isint(d._minutes) and isint(d._seconds)
